@@ -270,6 +270,20 @@ func (ms *Modules) FindModule(n Node) *Module {
 	return m[name]
 }
 
+// revisions returns the loaded modules named name, latest revision first.
+func (ms *Modules) revisions(name string) []*Module {
+	var out []*Module
+	seen := map[*Module]bool{}
+	for _, m := range ms.Modules {
+		if m.Name == name && !seen[m] {
+			seen[m] = true
+			out = append(out, m)
+		}
+	}
+	sort.Slice(out, func(i, j int) bool { return out[i].FullName() > out[j].FullName() })
+	return out
+}
+
 // FindModuleByNamespace either returns the Module specified by the namespace
 // or returns an error.
 func (ms *Modules) FindModuleByNamespace(ns string) (*Module, error) {
